@@ -1,7 +1,7 @@
 (* C19 — obligations re-decided by the kernel for the tables generated from /repo on this run, non-vacuity of the
    hypotheses of C19/Props.v, and the refutations of the same statements for the unrepaired variant `orig`
    (witnesses replayed on the real code by tools/props/c19.py). *)
-From S2T Require Import Lib.PyStr C19.Model C19.Proofs C19.TextSpec C19.Depth Gen.C19Tables.
+From S2T Require Import Lib.PyStr C19.Model C19.Proofs C19.TextSpec C19.Depth C19.Formulas Gen.C19Tables.
 From Coq Require Import List Bool NArith.
 Import ListNotations.
 Open Scope N_scope.
@@ -101,3 +101,15 @@ Theorem C19_depth_examples :
   /\ conv_depth T w_texts = 6%nat /\ height w_texts = 9%nat.
 Proof. repeat split; vm_compute; reflexivity. Qed.
 Print Assumptions C19_depth_examples.
+
+(* ---- the formula collectors on a sample scope: a paragraph with an inline formula, a display paragraph with two
+   m:oMath (the second is inline), a blank formula (dropped) *)
+Definition w_scope := Node (s "body") [] None
+  [Node (s "p") [] None [E "oMath" [run (s "a")]];
+   Node (s "p") [] None [E "oMathPara" [E "oMathParaPr" []; E "oMath" [run (s "b")]; E "oMath" [run (s "c")]]];
+   Node (s "p") [] None [E "oMath" [run (s " ")]]].
+Theorem C19_formulas_example :
+  collect T w_scope = [(s "b", true); (s "a", false); (s "c", false)]
+  /\ map id_of (located T w_scope) = [[1; 0; 1]; [0; 0]; [1; 0; 2]; [2; 0]]%nat.
+Proof. split; vm_compute; reflexivity. Qed.
+Print Assumptions C19_formulas_example.
